@@ -864,6 +864,10 @@ static const uint8_t *unmarshal_one_env(
             env->length = length;
             data = unmarshal_one(st, data, &fiberv, flags);
             janet_asserttype(fiberv, JANET_FIBER, st);
+            /* A frame read in the meantime may have claimed this environment (see unmarshal_one_fiber) */
+            if (env->as.fiber != NULL && env->as.fiber != janet_unwrap_fiber(fiberv)) {
+                janet_panic("funcenv is the frame environment of another fiber");
+            }
             env->as.fiber = janet_unwrap_fiber(fiberv);
         } else {
             /* Off stack variant */
@@ -1220,6 +1224,11 @@ static const uint8_t *unmarshal_one_fiber(
                 (env->offset >= 0 || (env->as.fiber != NULL && env->as.fiber != fiber) ||
                  -env->offset != stack || env->length != def->slotcount)) {
             janet_panic("fiber stackframe has invalid environment");
+        }
+        /* An environment that is still being read does not know its fiber yet: this frame claims it,
+         * so that no frame of another fiber can, and the environment's own fiber must agree. */
+        if (env != NULL && env->as.fiber == NULL) {
+            env->as.fiber = fiber;
         }
 
         /* Get stack items */
